@@ -1,1 +1,143 @@
-//! Hooks owned by property C08 (feature `verif-hooks`).
+//! C08: a structured dump of the MIR of every function, rendered in a
+//! canonical vocabulary that does not depend on the crate's printer:
+//! explicit variables by identifier, temporaries by index, blocks by their
+//! position in `Item::blocks`, runtime functions by registered name, binary
+//! operators by variant name. Dead-code elimination has been applied (it is
+//! the MIR the pipeline hands to the LIR lowerer).
+
+use std::collections::HashMap;
+
+use crate::{
+    FileTree, NoCtx, RotoReport, Runtime,
+    ast::Literal,
+    label::LabelRef,
+    mir::{Instruction, Item, Mir, Place, Projection, Value, Var, VarKind},
+    runtime::Rt,
+};
+
+/// One instruction, already split into the parts a comparison needs.
+#[derive(Clone, Debug, PartialEq)]
+pub enum Ins {
+    /// `to = value` — `unit_const` is true for `x: () = ()`
+    Assign { to: String, value: String, unit_const: bool },
+    SetDiscriminant { to: String, variant: String },
+    Drop { place: String },
+    Return { var: String },
+    Jump { to: usize },
+    Switch { examinee: String, branches: Vec<(usize, usize)>, default: Option<usize> },
+}
+
+#[derive(Clone, Debug)]
+pub struct FnDump {
+    /// fully resolved name, e.g. `pkg.main`
+    pub name: String,
+    pub params: Vec<String>,
+    /// blocks in `Item::blocks` order; jumps refer to positions in this list
+    /// (`usize::MAX` for a label without a block)
+    pub blocks: Vec<Vec<Ins>>,
+    /// `Item::tmp_idx`
+    pub tmp_idx: usize,
+}
+
+/// Parse, type check, lower to MIR (dead-code elimination included) and dump
+/// every function.
+pub fn dump(tree: FileTree, rt: &Runtime<NoCtx>) -> Result<Vec<FnDump>, RotoReport> {
+    let checked = tree.parse()?.typecheck(rt)?;
+    let mir = checked.lower_to_mir();
+    Ok(mir.verif_c08_dump())
+}
+
+fn var(v: &Var) -> String {
+    match &v.kind {
+        VarKind::Explicit(id) => format!("{id}"),
+        VarKind::Tmp(i) => format!("t{i}"),
+    }
+}
+
+fn place(p: &Place) -> String {
+    let mut s = var(&p.var);
+    for proj in &p.projection {
+        match proj {
+            Projection::Field(f) => s.push_str(&format!(".{f}")),
+            Projection::VariantField(v, i) => s.push_str(&format!(".{v}#{i}")),
+        }
+    }
+    s
+}
+
+fn literal(l: &Literal) -> String {
+    match l {
+        Literal::String(s) => format!("str:{}", s.bytes().map(|b| format!("{b:02x}")).collect::<String>()),
+        Literal::Char(c) => format!("char:{}", *c as u32),
+        Literal::Asn(a) => format!("asn:{}", a.into_u32()),
+        Literal::IpAddress(a) => format!("ip:{a}"),
+        Literal::Integer(i, _) => format!("int:{i}"),
+        Literal::Float(f, _) => format!("float:{}", f.to_bits()),
+        Literal::Bool(b) => format!("bool:{b}"),
+        Literal::Unit => "unit".to_string(),
+    }
+}
+
+fn vars(vs: &[Var]) -> String {
+    vs.iter().map(var).collect::<Vec<_>>().join(" ")
+}
+
+fn value(v: &Value, rt: &Rt) -> String {
+    match v {
+        Value::Const(l, _) => format!("const {}", literal(l)),
+        Value::Constant(n, _) => format!("constant {}", n.ident),
+        Value::Context(i) => format!("context {i}"),
+        Value::Clone(p) => format!("clone {}", place(p)),
+        Value::Discriminant(x) => format!("disc {}", var(x)),
+        Value::Not(x) => format!("not {}", var(x)),
+        Value::Negate(x, _) => format!("neg {}", var(x)),
+        Value::Move(x) => format!("move {}", var(x)),
+        Value::BinOp { left, binop, right, .. } => format!("binop {} {:?} {}", var(left), binop, var(right)),
+        Value::Call { func, args, .. } => format!("call {} {}", func.ident, vars(args)),
+        Value::CallRuntime { func_ref, args, .. } => {
+            format!("callrt {} {}", rt.get_function(*func_ref).name.ident, vars(args))
+        }
+    }
+}
+
+pub(crate) fn dump_items(mir: &Mir, rt: &Rt) -> Vec<FnDump> {
+    mir.items.iter().map(|it| dump_item(it, rt)).collect()
+}
+
+fn dump_item(item: &Item, rt: &Rt) -> FnDump {
+    let index: HashMap<LabelRef, usize> =
+        item.blocks.iter().enumerate().map(|(i, b)| (b.label, i)).collect();
+    let lbl = |l: &LabelRef| index.get(l).copied().unwrap_or(usize::MAX);
+    let params = match &item.ty {
+        crate::mir::ItemKind::Function { parameters, .. } => parameters.iter().map(var).collect(),
+        crate::mir::ItemKind::Constant { .. } => Vec::new(),
+    };
+    let blocks = item
+        .blocks
+        .iter()
+        .map(|b| {
+            b.instructions
+                .iter()
+                .map(|i| match i {
+                    Instruction::Jump(l) => Ins::Jump { to: lbl(l) },
+                    Instruction::Switch { examinee, branches, default } => Ins::Switch {
+                        examinee: var(examinee),
+                        branches: branches.iter().map(|(k, l)| (*k, lbl(l))).collect(),
+                        default: default.as_ref().map(&lbl),
+                    },
+                    Instruction::Assign { to, value: v, .. } => Ins::Assign {
+                        to: place(to),
+                        value: value(v, rt),
+                        unit_const: matches!(v, Value::Const(Literal::Unit, _)),
+                    },
+                    Instruction::SetDiscriminant { to, variant, .. } => {
+                        Ins::SetDiscriminant { to: var(to), variant: format!("{variant}") }
+                    }
+                    Instruction::Return { var: v } => Ins::Return { var: var(v) },
+                    Instruction::Drop { val, .. } => Ins::Drop { place: place(val) },
+                })
+                .collect()
+        })
+        .collect();
+    FnDump { name: format!("{}", item.name), params, blocks, tmp_idx: item.tmp_idx }
+}
